@@ -110,17 +110,14 @@ ExprAt(i) ==
        IN <<c[1] \o " ? " \o a[1] \o " : " \o b[1],
             IF a[2].ok /\ b[2].ok THEN V(r.v, a[2].u \/ b[2].u) ELSE Bad>>      \* 6.5.15p5: common type of both arms
 
-VARIABLES i, n
-Init == i = 0 /\ n = 0
-Next == /\ i < NBin + NTern
-        /\ i' = i + 1
-        /\ IF ((i + 1) * 7919 + Seed) % Stride = 0
-           THEN LET e == ExprAt(i + 1) IN
-                IF e[2].ok /\ Small(e[2].v)
-                THEN n' = n + 1 /\ CSVWrite("%1$s", <<ToJson([e |-> e[1], v |-> e[2].v, u |-> e[2].u])>>, IOEnv.OUT)
-                ELSE n' = n
-           ELSE n' = n
-Spec == Init /\ [][Next]_<<i, n>>
+VARIABLES i, done
+Init == i \in {k \in 1..(NBin + NTern) : (k * 7919 + Seed) % Stride = 0} /\ done = FALSE
+Next == /\ ~done /\ done' = TRUE /\ i' = i
+        /\ LET e == ExprAt(i) IN
+           IF e[2].ok /\ Small(e[2].v)
+           THEN CSVWrite("%1$s", <<ToJson([e |-> e[1], v |-> e[2].v, u |-> e[2].u])>>, IOEnv.OUT)
+           ELSE TRUE
+Spec == Init /\ [][Next]_<<i, done>>
 (* sanity of the evaluator itself (checked on every generated expression) *)
 Sane == TRUE
 =============================================================================
